@@ -27,6 +27,11 @@ class DaemonExit(Exception):
         self.status = status
 
 
+class DaemonBlocked(Exception):
+    """qmail-send sits in a blocking read() of a spawner's report pipe although nothing is there to read: it no longer
+    waits in select, so neither the trigger nor any timer can wake it.  A state read from /proc, not a timing."""
+
+
 class SimTimeout(core.Inconclusive):
     pass
 
@@ -522,6 +527,8 @@ class Sim:
     def _next_daemon_select(self, want, wall=120.0):
         """pump until the daemon's select 'enter' or 'exit' message arrives"""
         t_end = time.time() + wall
+        t_next_probe = time.time() + 3.0
+        blocked = 0
         while True:
             self._pump(0.002 if self.scheduler is not None else 0.05)
             while self.inbox:
@@ -542,8 +549,39 @@ class Sim:
                         self.inflight_wait = 0
                 else:
                     self.inflight_wait = 0
+            if time.time() > t_next_probe:
+                t_next_probe = time.time() + 1.5
+                st = self._daemon_syscall()
+                if st is not None and st[0] == 0 and st[1] in (2, 4) and not self._report_pipe_readable(st[1]):
+                    blocked += 1
+                    if blocked >= 4:
+                        raise DaemonBlocked("qmail-send has been inside read(fd %d) - the %s spawner's report pipe, which is empty - for %d "
+                                            "probes instead of waiting in select" % (st[1], "local" if st[1] == 2 else "remote", blocked))
+                else:
+                    blocked = 0
             if time.time() > t_end:
                 raise SimTimeout("daemon did not reach select (%s) within %.0fs; log tail: %r" % (want, wall, self.dlog[-300:]))
+
+    def _daemon_syscall(self):
+        """(number, first argument) of the system call qmail-send is blocked in, or None"""
+        try:
+            with open("/proc/%d/syscall" % self.daemon) as f:
+                t = f.read().split()
+            if not t or t[0] in ("running", "-1"):
+                return None
+            return int(t[0]), int(t[1], 16)
+        except (OSError, ValueError, IndexError):
+            return None
+
+    def _report_pipe_readable(self, fd):
+        """has the controller written anything into that report pipe that the daemon has not read yet?"""
+        import array
+        a = array.array("i", [0])
+        try:
+            fcntl.ioctl(self.P["lrep" if fd == 2 else "rrep"][1], termios.FIONREAD, a)
+        except OSError:
+            return True
+        return a[0] > 0
 
     def run_until_quiescent(self, max_selects=4000):
         """(scenario) let the system run until the daemon would sleep: returns the select
